@@ -11,16 +11,20 @@
 // Every call is made by one thread outside any parallel loop with
 // MethodFlag::UNPROTECTED.
 //
-// Alphabet (simplest first), p = (i,j) over all 9 ordered pairs incl. i == j:
+// Alphabet (simplest first; (i,j) ranges over all 9 ordered pairs, the six
+// with i != j before the three self loops):
 //   addNode(i)            only for a node that was never added
 //   addEdge(i,j)          both live; a NEW edge gets data 1+3i+j, an existing
 //                         one is returned unchanged (any of the parallel ones)
 //   addMultiEdge(i,j,v)   both live; v = 11+3i+j
 //   update(i,j)           getEdgeData(findEdge(i,j)) ^= 32, when the model has
 //                         the edge
-//   removeEdge(i,j)       removeEdge(i, findEdge(i,j)), when the model has it
 //   removeNode(i)         any state of i (documented no-op unless i is live)
-//   removeInEdge(i,j)     Morph_SepInOut_Graph in/out only
+//   removeInEdge(i,j)     Morph_SepInOut_Graph in/out only, through findInEdge
+//   removeEdge(i,j)       removeEdge(i, findEdge(i,j)), when the model has it
+// A violation seen right after an operation on a pair (i,i) carries
+// "self-loop-" in its key: the header neither forbids nor mentions self loops,
+// so these are kept apart from the findings that need none.
 // Re-adding a removed node is not in the alphabet (the API does not define it).
 //
 // Reference model: live set + a list of edges (u,v,data).  Directed: u->v.
@@ -96,39 +100,77 @@ enum { NEVER = 0, LIVE = 1, REMOVED = 2 };
 enum { MORPH = 0, SEPINOUT = 1, HYPER = 2 };
 
 static const int NN = 3, NP = 9;
-enum {
-  OP_ADDNODE  = 0,
-  OP_ADDEDGE  = OP_ADDNODE + NN,
-  OP_ADDMULTI = OP_ADDEDGE + NP,
-  OP_UPDATE   = OP_ADDMULTI + NP,
-  OP_RMEDGE   = OP_UPDATE + NP,
-  OP_RMNODE   = OP_RMEDGE + NP,
-  OP_RMINEDGE = OP_RMNODE + NN,
-  NOPS_BASE   = OP_RMINEDGE,
-  NOPS_SEP    = OP_RMINEDGE + NP
+enum Kind {
+  K_ADDNODE,
+  K_ADDEDGE,
+  K_ADDMULTI,
+  K_UPDATE,
+  K_RMNODE,
+  K_RMINEDGE,
+  K_RMEDGE
 };
-
-static std::string opname(int op) {
-  char b[64];
-  auto pr = [&](const char* nm, int p, const char* extra) {
-    snprintf(b, sizeof b, "%s(%d,%d%s)", nm, p / 3, p % 3, extra);
+struct OpDesc {
+  Kind k;
+  int i, j;
+};
+// Simplest first.  Within a group the six pairs i != j come before the three
+// self loops, and removeEdge on a self loop is placed at the very end of the
+// alphabet: seqx skips the remaining operations of a state when one of them
+// kills the worker, and that is the operation that does (boost assertion in
+// the sorted in/out flavour), so nothing else is lost.
+static std::vector<OpDesc> make_ops(bool withRemoveInEdge) {
+  std::vector<OpDesc> v;
+  auto pairs = [&](Kind k, bool self) {
+    for (int i = 0; i < NN; ++i)
+      for (int j = 0; j < NN; ++j)
+        if ((i == j) == self)
+          v.push_back({k, i, j});
   };
-  if (op < OP_ADDEDGE)
-    snprintf(b, sizeof b, "addNode(%d)", op);
-  else if (op < OP_ADDMULTI)
-    pr("addEdge", op - OP_ADDEDGE, "");
-  else if (op < OP_UPDATE) {
-    char v[16];
-    snprintf(v, sizeof v, ",%d", 11 + op - OP_ADDMULTI);
-    pr("addMultiEdge", op - OP_ADDMULTI, v);
-  } else if (op < OP_RMEDGE)
-    pr("update", op - OP_UPDATE, "");
-  else if (op < OP_RMNODE)
-    pr("removeEdge", op - OP_RMEDGE, "");
-  else if (op < OP_RMINEDGE)
-    snprintf(b, sizeof b, "removeNode(%d)", op - OP_RMNODE);
-  else
-    pr("removeInEdge", op - OP_RMINEDGE, "");
+  for (int i = 0; i < NN; ++i)
+    v.push_back({K_ADDNODE, i, i});
+  for (Kind k : {K_ADDEDGE, K_ADDMULTI, K_UPDATE}) {
+    pairs(k, false);
+    pairs(k, true);
+  }
+  for (int i = 0; i < NN; ++i)
+    v.push_back({K_RMNODE, i, i});
+  if (withRemoveInEdge) {
+    pairs(K_RMINEDGE, false);
+    pairs(K_RMINEDGE, true);
+  }
+  pairs(K_RMEDGE, false);
+  pairs(K_RMEDGE, true);
+  return v;
+}
+static const std::vector<OpDesc> OPS_BASE = make_ops(false);
+static const std::vector<OpDesc> OPS_SEP  = make_ops(true);
+
+static std::string opname(const OpDesc& o) {
+  char b[64];
+  switch (o.k) {
+  case K_ADDNODE:
+    snprintf(b, sizeof b, "addNode(%d)", o.i);
+    break;
+  case K_RMNODE:
+    snprintf(b, sizeof b, "removeNode(%d)", o.i);
+    break;
+  case K_ADDEDGE:
+    snprintf(b, sizeof b, "addEdge(%d,%d)", o.i, o.j);
+    break;
+  case K_ADDMULTI:
+    snprintf(b, sizeof b, "addMultiEdge(%d,%d,%d)", o.i, o.j,
+             11 + 3 * o.i + o.j);
+    break;
+  case K_UPDATE:
+    snprintf(b, sizeof b, "update(%d,%d)", o.i, o.j);
+    break;
+  case K_RMEDGE:
+    snprintf(b, sizeof b, "removeEdge(%d,%d)", o.i, o.j);
+    break;
+  case K_RMINEDGE:
+    snprintf(b, sizeof b, "removeInEdge(%d,%d)", o.i, o.j);
+    break;
+  }
   return b;
 }
 
@@ -244,7 +286,7 @@ struct Cfg {
 
 struct Ctx {
   std::string comp, after;
-  bool self = false; // a self-loop edge was created earlier in this history
+  bool self = false; // the step being checked operates on a pair (i,i)
   [[noreturn]] void fail(const char* symptom, const char* fmt, ...) const
       __attribute__((format(printf, 3, 4))) {
     char buf[900];
@@ -252,7 +294,7 @@ struct Ctx {
     va_start(ap, fmt);
     vsnprintf(buf, sizeof buf, fmt, ap);
     va_end(ap);
-    sx::fail(comp + (self ? "+self-loop" : "") + ":" + symptom,
+    sx::fail(comp + ":" + (self ? "self-loop-" : "") + symptom,
              "after %s: %s", after.c_str(), buf);
   }
 };
@@ -620,18 +662,22 @@ struct Runner {
   }
 
   // ---- one operation; false = not enabled in this state ---------------------
-  static bool step(World& w, M& m, int op, Ctx& cx, bool& removed) {
-    G& g = *w.g;
-    if (op < OP_ADDEDGE) {
-      int i = op - OP_ADDNODE;
+  static const std::vector<OpDesc>& ops() {
+    return C::HasRemoveInEdge ? OPS_SEP : OPS_BASE;
+  }
+
+  static bool step(World& w, M& m, const OpDesc& op, Ctx& cx, bool& removed) {
+    G& g    = *w.g;
+    cx.self = false;
+    int i = op.i, j = op.j, p = 3 * i + j;
+    if (op.k == K_ADDNODE) {
       if (m.st[i] != NEVER)
         return false;
       g.addNode(w.n[i], UP);
       m.st[i] = LIVE;
       return true;
     }
-    if (op >= OP_RMNODE && op < OP_RMINEDGE) {
-      int i = op - OP_RMNODE;
+    if (op.k == K_RMNODE) {
       g.removeNode(w.n[i], UP);
       if (m.st[i] == LIVE) {
         m.st[i] = REMOVED;
@@ -640,20 +686,13 @@ struct Runner {
       }
       return true;
     }
-    int p = op >= OP_RMINEDGE  ? op - OP_RMINEDGE
-            : op >= OP_RMEDGE  ? op - OP_RMEDGE
-            : op >= OP_UPDATE  ? op - OP_UPDATE
-            : op >= OP_ADDMULTI ? op - OP_ADDMULTI
-                                : op - OP_ADDEDGE;
-    int i = p / 3, j = p % 3;
     GNode ni = w.n[i], nj = w.n[j];
+    cx.self  = i == j;
     if (!m.live(i) || !m.live(j))
       return false;
     auto ds = m.datas(i, j);
-    if (op < OP_ADDMULTI) { // addEdge
+    if (op.k == K_ADDEDGE) {
       auto it = g.addEdge(ni, nj, UP);
-      if (i == j)
-        cx.self = true;
       if (it == g.edge_end(ni, UP))
         cx.fail("addEdge-returns-end", "addEdge(%d,%d) returned edge_end", i,
                 j);
@@ -675,10 +714,8 @@ struct Runner {
       }
       return true;
     }
-    if (op < OP_UPDATE) { // addMultiEdge
-      int v = 11 + p;
-      if (i == j)
-        cx.self = true;
+    if (op.k == K_ADDMULTI) {
+      int v   = 11 + p;
       auto it = [&]() {
         if constexpr (C::HasData)
           return g.addMultiEdge(ni, nj, UP, v);
@@ -702,7 +739,7 @@ struct Runner {
     }
     if (ds.empty())
       return false; // the remaining operations need an existing edge
-    if (op < OP_RMEDGE) { // update through findEdge
+    if (op.k == K_UPDATE) { // through findEdge
       if (!C::HasData)
         return false;
       auto it = g.findEdge(ni, nj, UP);
@@ -718,7 +755,7 @@ struct Runner {
       setdata(g, it, d ^ 32);
       return true;
     }
-    if (op < OP_RMNODE) { // removeEdge through findEdge
+    if (op.k == K_RMEDGE) { // through findEdge
       auto it = g.findEdge(ni, nj, UP);
       if (it == g.edge_end(ni, UP))
         cx.fail("findEdge", "findEdge(%d,%d) returns end, reference has %zu "
@@ -733,7 +770,7 @@ struct Runner {
       removed = true;
       return true;
     }
-    if constexpr (C::HasRemoveInEdge) { // removeInEdge through findInEdge
+    if constexpr (C::HasRemoveInEdge) { // K_RMINEDGE, through findInEdge
       auto it = g.findInEdge(ni, nj, UP);
       if (it == g.in_edge_end(nj, UP))
         cx.fail("findInEdge", "findInEdge(%d,%d) returns end, reference has "
@@ -771,13 +808,22 @@ struct Runner {
     if (startLive)
       for (int i = 0; i < NN; ++i)
         w.g->addNode(w.n[i], UP);
-    check(w, m, cx);
+    // The full observable check runs after EVERY step of every history in the
+    // sense that matters: BFS only extends histories whose every proper prefix
+    // was itself run (and fully checked after its last step) on an earlier
+    // level, and check() only reads.  Re-checking the prefixes in each of
+    // their ~40^k extensions would find nothing new, so an exploration run
+    // checks after its last step; a replay checks after every step.
+    if (hist.empty() || g_replay_mode)
+      check(w, m, cx);
     bool removed = false;
     for (size_t k = 0; k < hist.size(); ++k) {
-      cx.after = "step " + std::to_string(k + 1) + " " + opname(hist[k]);
-      if (!step(w, m, hist[k], cx, removed))
+      const OpDesc& od = ops().at(hist[k]);
+      cx.after = "step " + std::to_string(k + 1) + " " + opname(od);
+      if (!step(w, m, od, cx, removed))
         return ""; // not enabled here
-      check(w, m, cx);
+      if (k + 1 == hist.size() || g_replay_mode)
+        check(w, m, cx);
     }
     if (removed)
       sx::mark_nontrivial();
@@ -791,8 +837,8 @@ struct Runner {
     for (int live = 0; live < 2; ++live) {
       sx::BfsCase c;
       c.name = comp + (live ? " from 3 added nodes" : " from 3 created nodes");
-      c.nops = C::HasRemoveInEdge ? (int)NOPS_SEP : (int)NOPS_BASE;
-      c.opname = opname;
+      c.nops   = (int)ops().size();
+      c.opname = [](int i) { return opname(ops().at(i)); };
       c.run    = [comp, live](const std::vector<int>& h) {
         return run(comp, live != 0, h);
       };
@@ -837,36 +883,38 @@ int main(int argc, char** argv) {
 
   std::vector<sx::BfsCase> bfs;
   std::vector<sx::EnumCase> en;
-  // depths: (created-nodes quick, thorough), (added-nodes quick, thorough)
-  const int QN = 4, TN = 6, QL = 3, TL = 5;
-  Runner<MDir>::add(bfs, "MorphGraph<int,int,directed>", QN, TN, QL, TL, 2);
+  // depths: created-nodes (quick, thorough), added-nodes (quick, thorough).
+  // The added-nodes cases grow by a factor of 7..13 per level; the flavours
+  // with the smaller state spaces (one entry per edge, or sorted storage) go
+  // one level deeper in the thorough tier.
+  const int QN = 4, TN = 7, QL = 4;
+  Runner<MDir>::add(bfs, "MorphGraph<int,int,directed>", QN, TN, QL, 6, 3);
   Runner<MInOut>::add(bfs, "MorphGraph<int,int,directed,in/out>", QN, TN, QL,
-                      TL, 2);
-  Runner<MUndir>::add(bfs, "MorphGraph<int,int,undirected>", QN, TN, QL, TL, 2);
+                      5, 3);
+  Runner<MUndir>::add(bfs, "MorphGraph<int,int,undirected>", QN, TN, QL, 5, 3);
   Runner<MDirSorted>::add(bfs, "MorphGraph<int,int,directed,sorted>", QN, TN,
-                          QL, TL, 2);
+                          QL, 6, 2);
   Runner<MUndirSorted>::add(bfs, "MorphGraph<int,int,undirected,sorted>", QN,
-                            TN, QL, TL, 2);
+                            TN, QL, 6, 2);
   Runner<MInOutSorted>::add(bfs, "MorphGraph<int,int,directed,in/out,sorted>",
-                            QN, TN, QL, TL, 2);
+                            QN, TN, QL, 5, 2);
   Runner<MNoLock>::add(bfs, "MorphGraph<int,int,directed,no-lockable>", QN, TN,
-                       QL, TL, 2);
-  Runner<MVoidDir>::add(bfs, "MorphGraph<int,void,directed>", QN, TN, QL, TL,
+                       QL, 5, 2);
+  Runner<MVoidDir>::add(bfs, "MorphGraph<int,void,directed>", QN, TN, QL, 6,
                         1);
   Runner<MVoidUndir>::add(bfs, "MorphGraph<int,void,undirected>", QN, TN, QL,
-                          TL, 1);
+                          6, 1);
   Runner<SInOut>::add(bfs, "Morph_SepInOut_Graph<int,int,directed,in/out>", QN,
-                      TN, QL, TL, 2);
+                      TN, QL, 5, 3);
   Runner<SInOutSorted>::add(
       bfs, "Morph_SepInOut_Graph<int,int,directed,in/out,sorted>", QN, TN, QL,
-      TL, 2);
+      5, 2);
   Runner<SUndir>::add(bfs, "Morph_SepInOut_Graph<int,int,undirected>", QN, TN,
-                      QL, TL, 1);
-  Runner<HDir>::add(bfs, "MorphHyperGraph<int,int,directed>", QN, TN, QL, TL,
-                    1);
+                      QL, 5, 3);
+  Runner<HDir>::add(bfs, "MorphHyperGraph<int,int,directed>", QN, TN, 3, 5, 2);
   Runner<HInOut>::add(bfs, "MorphHyperGraph<int,int,directed,in/out>", QN, TN,
-                      QL, TL, 1);
-  Runner<HUndir>::add(bfs, "MorphHyperGraph<int,int,undirected>", QN, TN, QL,
-                      TL, 1);
+                      3, 5, 3);
+  Runner<HUndir>::add(bfs, "MorphHyperGraph<int,int,undirected>", QN, TN, 3, 5,
+                      3);
   return sx::sx_main(argc, argv, "C10", bfs, en);
 }
